@@ -3,18 +3,7 @@
 import json, os, sys
 V = os.path.dirname(os.path.dirname(os.path.abspath(__file__)))
 
-CHECKS = {
- 'C20': dict(
-   technique='TLA+ reference spec of the emitter (Emitter.tla) model-checked with TLC; TLC-enumerated behaviours replayed on the real Emitter/Parser and random longer ones recorded, every call log validated by TLC against the spec actions (Trace_C20)',
-   text='Exhaustive model checking of the reference emitter (all driver histories up to the bound x all callback scripts, re-entrant emits included) for once-at-most-once, ordered delivery, name isolation, exact unsubscription and snapshot stability; the mechanism variant without a once guard is refuted by TLC. Conformance: every exported TLC behaviour (sampled in quick, all in thorough) and seeded random behaviours of up to 40 operations with nested scripts are executed on hotxlfp.Emitter and hotxlfp.Parser and the recorded call log is accepted or rejected event by event by TLC.',
-   note='Trusted: TLC, the Python recorder (logs public calls and callback entries/exits only). Listeners return normally. Bounds: quick H=3 histories, <=1 scripted callback; thorough H=4; random behaviours to 40 operations, depth 3.',
-   ref='DESIGN.md section 8 C20'),
- 'C07': dict(
-   technique='TLA+ comparison order (XLOps.tla) model-checked with TLC for trichotomy, derived operators, converse, transitivity, rank order and the blank rule over all pairs/triples of a 25-value pool; every pool pair x 6 operators (as variables and as literals) and seeded random pairs executed on the real parser and judged by TLC (Trace_C07)',
-   text='The order is defined once in TLA+ and its laws are model-checked exhaustively on the pool; the real parser is then shown to agree with that definition on every pool pair under all six operators and on thousands of random pairs (numbers, dates with millisecond times, lower-case/digit text, logicals, blanks), so the laws transfer to the code on the explored domain.',
-   note='Trusted: TLC, value encoding (harness/values.py). Text under < > restricted to lower-case letters and digits; dates from 1 March 1900 when compared with numbers.',
-   ref='DESIGN.md section 8 C07'),
-}
+CHECKS = json.load(open(os.path.join(V, 'tools', 'checks.json')))
 
 NOT_YET = 'check not built yet in this round (planned: DESIGN.md section 10)'
 
